@@ -69,13 +69,6 @@ macro_rules! log_context {
     }};
 }
 
-#[derive(Clone, Copy)]
-pub enum HeaderLen {
-    V4,
-    V6,
-    Unix,
-}
-
 // TODO: should have a backend
 pub struct ExpectProxyProtocol<Front: SocketHandler> {
     pub addresses: Option<ProxyAddr>,
@@ -84,7 +77,6 @@ pub struct ExpectProxyProtocol<Front: SocketHandler> {
     pub frontend_readiness: Readiness,
     pub frontend_token: Token,
     pub frontend: Front,
-    header_len: HeaderLen,
     index: usize,
     pub request_id: Ulid,
 }
@@ -109,17 +101,20 @@ impl<Front: SocketHandler> ExpectProxyProtocol<Front> {
             },
             frontend_token,
             frontend,
-            header_len: HeaderLen::V4,
             index: 0,
             request_id,
         }
     }
 
     pub fn readable(&mut self, metrics: &mut SessionMetrics) -> SessionResult {
-        let total_len = match self.header_len {
-            HeaderLen::V4 => 28,
-            HeaderLen::V6 => 52,
-            HeaderLen::Unix => 232,
+        // Never read past the header, the bytes behind it belong to the next
+        // protocol layer: first the 16-byte fixed part, then exactly the length
+        // it announces (at most what the buffer holds, the largest header we
+        // accept).
+        let total_len = if self.index < 16 {
+            16
+        } else {
+            self.announced_len().min(self.frontend_buffer.len())
         };
 
         // Anti-oversized-header / partial-read invariant: the accumulation
@@ -235,29 +230,24 @@ impl<Front: SocketHandler> ExpectProxyProtocol<Front> {
                 SessionResult::Upgrade
             }
             Err(Err::Incomplete(_)) => {
-                match self.header_len {
-                    HeaderLen::V4 => {
-                        if self.index == 28 {
-                            self.header_len = HeaderLen::V6;
-                        }
-                    }
-                    HeaderLen::V6 => {
-                        if self.index == 52 {
-                            self.header_len = HeaderLen::Unix;
-                        }
-                    }
-                    HeaderLen::Unix => {
-                        if self.index == 232 {
-                            error!(
-                                "{} proxy protocol header exceeds maximum size (232 bytes), closing",
-                                log_context!(self)
-                            );
-                            incr!(names::proxy_protocol::ERRORS);
-                            self.frontend_readiness.reset();
-                            return SessionResult::Close;
-                        }
-                    }
-                };
+                if self.index == self.frontend_buffer.len() {
+                    error!(
+                        "{} proxy protocol header exceeds maximum size (232 bytes), closing",
+                        log_context!(self)
+                    );
+                    incr!(names::proxy_protocol::ERRORS);
+                    self.frontend_readiness.reset();
+                    return SessionResult::Close;
+                }
+                if self.index >= 16 && self.index == self.announced_len() {
+                    error!(
+                        "{} proxy protocol header shorter than its address family requires, closing",
+                        log_context!(self)
+                    );
+                    incr!(names::proxy_protocol::ERRORS);
+                    self.frontend_readiness.reset();
+                    return SessionResult::Close;
+                }
                 SessionResult::Continue
             }
             Err(Err::Error(e)) | Err(Err::Failure(e)) => {
@@ -271,6 +261,11 @@ impl<Front: SocketHandler> ExpectProxyProtocol<Front> {
                 SessionResult::Close
             }
         }
+    }
+
+    /// Total length of the header according to its fixed part (once read)
+    fn announced_len(&self) -> usize {
+        16 + u16::from_be_bytes([self.frontend_buffer[14], self.frontend_buffer[15]]) as usize
     }
 
     pub fn front_socket(&self) -> &TcpStream {
